@@ -18,8 +18,9 @@ CHECKS = {
     "C02": ("Coq theorems on the predicate evaluator + correspondence + metamorphic identities",
             "Theorems: candidates per context node in axis order; position = index, size = number of candidates; [n] is [position()=n] for every number-valued predicate; NaN/fractions/out-of-range select nothing; successive predicates renumber; results are ordered sub-sequences; "
             "filter expressions number in document order and a continued path starts from the filtered nodes. Tie: facts (filter-path handlers, position/last registered) + correspondence over predicate-bearing paths and filter paths.", "5 C02, 15", ""),
-    "C03": ("Coq theorems on sort-by-Pos/dedup and union + correspondence + direct invariant checks on every returned node-set",
-            "Theorems (all inputs): every step/union/filter result is strictly monotone in Pos (so duplicate-free, never mixed); union is commutative, associative, idempotent as list equality; with C10 (pos_monotone) Pos order is document order. "
+    "C03": ("Coq theorems on sort-by-Pos/dedup and union + validity of every returned node (bridge to C10) + correspondence + direct invariant checks on every returned node-set",
+            "Theorems (all inputs): every step/union/filter result is strictly monotone in Pos (so duplicate-free, never mixed); every node an evaluation returns is a node of the document; hence for every document-ordered tree (every store-built tree, C10) "
+            "results are strictly ascending in DOCUMENT order (descending after a reverse axis), and union is commutative and associative as equality of evaluation results and idempotent up to cleanup - with no hypothesis left about positions. "
             "Tie: correspondence of node-set valued expressions; invariants also checked directly on the implementation's output in true document order.", "5 C03, 15", ""),
     "C04": ("Coq theorems on the conversion functions (SpecFloat doubles, code-point strings) + correspondence by double/string class",
             "Theorems: string-value = concatenated descendant text (all trees); node-set -> string uses the first node in document order; the XPath Number grammar (accepted numerals convert to the correctly rounded value; any other character makes NaN); special renderings; "
